@@ -1,15 +1,55 @@
 (* Proofs/TrackerProofs.v — proofs for C07 about Model/Tracker.v. *)
 From GoImap.Base Require Import Bytes.
 From GoImap.Model Require Import Tracker.
-From GoImap.Proofs Require Import TrackerSpec.
+From GoImap.Proofs Require Import TrackerSpec TrackerLemmas.
+From Coq Require Import ZifyN ZifyNat ZifyBool.
 Open Scope N_scope.
+
+(* a reachable state satisfies the invariant; a session's queue is consistent *)
+Lemma reach_sess : forall n0 ops t s, fresh_sids [] ops = true -> run n0 ops = Some t ->
+  In s (t_sess t) ->
+  Inv t /\ exists b, qinv b (s_view s) (s_queue s) (t_L t) (t_next t).
+Proof.
+  intros n0 ops t s Hf Hrun Hin. pose proof (run_inv _ _ _ Hf Hrun) as HI.
+  split; [assumption|]. apply (inv_sess _ HI). assumption.
+Qed.
 
 (* For every history accepted by the tracker's own guards, in every reachable state and for
    every session: the queued updates, applied in order to the client's view, give the mailbox *)
 Lemma replay_inv : forall n0 ops t s, fresh_sids [] ops = true -> run n0 ops = Some t ->
   In s (t_sess t) ->
   replay (s_view s) (s_queue s) = t_L t /\ NoDup (t_L t) /\ NoDup (s_view s) /\ t_n t = N.of_nat (length (t_L t)).
-Admitted.
+Proof.
+  intros n0 ops t s Hf Hrun Hin.
+  destruct (reach_sess _ _ _ _ Hf Hrun Hin) as (HI & b & Hq).
+  split; [eapply qinv_replay; eauto|].
+  split; [apply (inv_nd _ HI)|].
+  split; [apply (qinv_head _ _ _ _ _ Hq)|apply (inv_n _ HI)].
+Qed.
+
+Lemma split_at_expunge_spec : forall q a b, split_at_expunge q = (a, b) ->
+  q = a ++ b /\ forallb (fun u => negb (is_expunge u)) a = true /\
+  (b = [] \/ exists k r, b = UExpunge k :: r).
+Proof.
+  induction q as [|u q IH]; intros a b H; simpl in H.
+  - inversion H; subst. simpl. auto.
+  - destruct (is_expunge u) eqn:E.
+    + inversion H; subst. split; [reflexivity|]. split; [reflexivity|].
+      right. destruct u; try discriminate. eauto.
+    + destruct (split_at_expunge q) as [a1 b1]. inversion H; subst.
+      destruct (IH _ _ eq_refl) as (A & B & C).
+      split; [simpl; f_equal; assumption|].
+      split; [simpl; rewrite E; simpl; assumption|assumption].
+Qed.
+
+Lemma find_sess_map : forall sid f ss s, (forall a, s_id (f a) = s_id a) ->
+  find_sess sid ss = Some s -> find_sess sid (map f ss) = Some (f s).
+Proof.
+  induction ss as [|a r IH]; intros s Hf H; simpl in *; [discriminate|].
+  rewrite Hf. destruct (s_id a =? sid).
+  - inversion H; subst. reflexivity.
+  - apply IH; assumption.
+Qed.
 
 (* Poll emits a prefix of the queue, in order; when expunges are not allowed it emits none
    and stops right before the first one *)
@@ -21,33 +61,90 @@ Lemma poll_order : forall t sid allow s t' em, find_sess sid (t_sess t) = Some s
     (allow = true -> rest = []) /\
     (forall s', find_sess sid (t_sess t') = Some s' ->
                 s_queue s' = rest /\ s_view s' = replay (s_view s) em).
-Admitted.
+Proof.
+  intros t sid allow s t' em Hf Hstep.
+  simpl in Hstep. rewrite Hf in Hstep.
+  destruct (poll_split allow (s_queue s)) as [em0 rest] eqn:Eps.
+  destruct (existsb bad_update em0) eqn:Ebad; [inversion Hstep|].
+  inversion Hstep; subst; clear Hstep.
+  exists rest.
+  assert (Hfacts : s_queue s = em ++ rest /\
+    (allow = false -> forallb (fun u => negb (is_expunge u)) em = true /\
+                      (rest = [] \/ exists k r, rest = UExpunge k :: r)) /\
+    (allow = true -> rest = [])).
+  { unfold poll_split in Eps. destruct allow.
+    - inversion Eps; subst. rewrite app_nil_r. split; [reflexivity|]. split; [discriminate|reflexivity].
+    - apply split_at_expunge_spec in Eps. destruct Eps as (A & B & C).
+      split; [assumption|]. split; [auto|discriminate]. }
+  destruct Hfacts as (A & B & C).
+  split; [assumption|]. split; [assumption|]. split; [assumption|].
+  intros s' Hs'. simpl in Hs'.
+  erewrite find_sess_map in Hs'; [| |exact Hf].
+  - apply find_sess_some in Hf. destruct Hf as [_ Hid].
+    rewrite Hid, N.eqb_refl in Hs'. inversion Hs'; subst. simpl. split; reflexivity.
+  - intros a. simpl. destruct (s_id a =? sid) eqn:E; simpl; lia.
+Qed.
 
 (* client -> server translation identifies the same message, 0 exactly when it is gone *)
 Lemma decode_spec : forall n0 ops t s c id, fresh_sids [] ops = true -> run n0 ops = Some t ->
   In s (t_sess t) -> nth1 (s_view s) c = Some id ->
   decode t s c = pos_of id (t_L t).
-Admitted.
+Proof.
+  intros n0 ops t s c id Hf Hrun Hin Hc.
+  destruct (reach_sess _ _ _ _ Hf Hrun Hin) as (HI & b & Hq).
+  pose proof (nth1_range _ _ _ Hc) as Hr.
+  unfold decode. replace (c =? 0) with false by lia.
+  destruct (decode_q_spec _ _ _ _ _ _ _ Hq Hc) as [[Hz Hn]|[Hnz Hp]].
+  - rewrite Hz. simpl. symmetry. apply pos_of_zero. assumption.
+  - replace (decode_q (s_queue s) c =? 0) with false by lia.
+    pose proof (nth1_range _ _ _ Hp) as Hr'. rewrite (inv_n _ HI).
+    replace (N.of_nat (length (t_L t)) <? decode_q (s_queue s) c) with false by lia.
+    symmetry. apply nth1_pos_of; [apply (inv_nd _ HI)|assumption].
+Qed.
 
 (* server -> client translation identifies the same message, 0 exactly when the client has
    not been told about it yet (for appends of any count) *)
 Lemma encode_spec : forall n0 ops t s p id, fresh_sids [] ops = true -> run n0 ops = Some t ->
   In s (t_sess t) -> nth1 (t_L t) p = Some id ->
   encode t s p = pos_of id (s_view s).
-Admitted.
+Proof.
+  intros n0 ops t s p id Hf Hrun Hin Hp.
+  destruct (reach_sess _ _ _ _ Hf Hrun Hin) as (HI & b & Hq).
+  pose proof (nth1_range _ _ _ Hp) as Hr.
+  unfold encode. replace (p =? 0) with false by lia.
+  rewrite (inv_n _ HI). replace (N.of_nat (length (t_L t)) <? p) with false by lia.
+  eapply encode_q_spec; eauto.
+Qed.
 
 (* numbers outside the respective view translate to 0 *)
 Lemma encode_out_of_range : forall t s p, nth1 (t_L t) p = None -> t_n t = N.of_nat (length (t_L t)) ->
   encode t s p = 0.
-Admitted.
+Proof.
+  intros t s p Hp Hn. unfold encode.
+  destruct (p =? 0) eqn:E0; [reflexivity|].
+  apply nth1_none in Hp. rewrite Hn.
+  replace (N.of_nat (length (t_L t)) <? p) with true by lia. reflexivity.
+Qed.
 
 (* there and back *)
 Lemma decode_encode : forall n0 ops t s c, fresh_sids [] ops = true -> run n0 ops = Some t ->
   In s (t_sess t) -> 1 <= c <= N.of_nat (length (s_view s)) ->
   decode t s c <> 0 -> encode t s (decode t s c) = c.
-Admitted.
+Proof.
+  intros n0 ops t s c Hf Hrun Hin Hc Hd.
+  destruct (nth1_exists _ _ Hc) as (id & Hid).
+  destruct (reach_sess _ _ _ _ Hf Hrun Hin) as (HI & b & Hq).
+  pose proof (decode_spec _ _ _ _ _ _ Hf Hrun Hin Hid) as Hdec.
+  assert (Hp : nth1 (t_L t) (decode t s c) = Some id).
+  { apply pos_of_nth1; [assumption|symmetry; assumption]. }
+  rewrite (encode_spec _ _ _ _ _ _ Hf Hrun Hin Hp).
+  apply nth1_pos_of; [apply (qinv_head _ _ _ _ _ Hq)|assumption].
+Qed.
 
 (* pos_of is the position: it finds the element and is 0 only when absent *)
 Lemma pos_of_spec : forall id l, (pos_of id l = 0 <-> ~ In id l) /\
   (forall p, p <> 0 -> pos_of id l = p -> nth1 l p = Some id).
-Admitted.
+Proof.
+  intros id l. split; [apply pos_of_zero|].
+  intros p Hp H. apply pos_of_nth1; assumption.
+Qed.
